@@ -223,6 +223,11 @@ pub trait SubCheck: Send + Sync {
     fn run_worker(&self, worker: usize, n_workers: usize, seed: u64, prop: &str, sh: &Shared) -> WorkerResult;
     /// Run one serialised case, without proptest.
     fn replay(&self, case: &Value, tier: Tier) -> Result<(R, Ctx), String>;
+    /// Coverage-guided fuzzing entry: the bytes are the random stream of the strategy
+    /// (proptest's pass-through RNG).  Returns the failing case, if any.
+    fn run_bytes(&self, _data: &[u8], _tier: Tier, _prop: &str) -> Option<Failure> {
+        None
+    }
 }
 
 /// Generated sub-check: proptest strategy + interpreter.
@@ -407,6 +412,23 @@ where
         }
         res
     }
+    fn run_bytes(&self, data: &[u8], tier: Tier, prop: &str) -> Option<Failure> {
+        let rng = TestRng::from_seed(RngAlgorithm::PassThrough, data);
+        let mut runner = TestRunner::new_with_rng(Config { failure_persistence: None, ..Config::default() }, rng);
+        let strat = (self.strategy)(tier);
+        let tree = strat.new_tree(&mut runner).ok()?;
+        let case = tree.current();
+        let mut ctx = Ctx { tier_thorough: tier == Tier::Thorough, ..Default::default() };
+        match run_guarded(self.run, &case, &mut ctx, prop) {
+            Ok(()) => None,
+            Err(v) => Some(Failure {
+                sub: self.name.to_string(),
+                case: serde_json::to_value(&case).expect("case must serialise to JSON"),
+                violation: v,
+                shrunk: false,
+            }),
+        }
+    }
     fn replay(&self, case: &Value, tier: Tier) -> Result<(R, Ctx), String> {
         let c: C = serde_json::from_value(case.clone()).map_err(|e| format!("cannot decode case for sub {}: {e}", self.name))?;
         let mut ctx = Ctx { tier_thorough: tier == Tier::Thorough, ..Default::default() };
@@ -527,7 +549,7 @@ pub struct ReplayFile {
     pub case: Value,
 }
 
-fn write_replay(prop: &str, seed: u64, f: &Failure) -> PathBuf {
+pub fn write_replay(prop: &str, seed: u64, f: &Failure) -> PathBuf {
     let dir = replay_dir("found");
     let _ = std::fs::create_dir_all(&dir);
     let rf = ReplayFile {
